@@ -7,11 +7,47 @@ from harness import gen, histcorr, semoracle
 ID = 'C10'
 TRANSLATORS = []
 PROPERTY_FILE = 'Properties/C10.v'
-THEOREMS = []
+THEOREMS = ['C10_result_wf', 'C10_connect_left', 'C10_left_induced_assignment', 'C10_connect_right',
+            'C10_mapping_pairs', 'C10_mapping_keys', 'C10_new_labels_fresh',
+            'C10_connect_left_wrapper', 'C10_connect_right_wrapper', 'C10_connect_inputs_wrapper',
+            'C10_extend_circuit_left', 'C10_extend_circuit_right', 'C10_add_circuit',
+            'C10_block_extract', 'C10_nub_first_nodup', 'C10_block_into_circuit_spec',
+            'C10_connect_left_total', 'C10_prefix_injective',
+            'C10_example_left', 'C10_example_right']
 PARTIAL = {}
-LEVEL_TEXT = 'pending'
-LEVEL_NOTE = 'pending'
-TECHNIQUE = 'pending'
+LEVEL_TEXT = ('proved for the model of connect_circuit in both directions and for connect_left / connect_right / '
+              'connect_inputs / extend_circuit / add_circuit as instances, over the relational three-valued semantics '
+              'Eval (all assignments, partial ones included), for every normal return: the result is well formed; its '
+              'inputs are the base inputs that are still INPUT gates followed by the renamed unconnected inputs of the '
+              'attached circuit, its outputs the base outputs that are not connectors followed by the renamed '
+              'unconnected outputs of the attached circuit; LEFT: every base gate keeps its value and every gate l of '
+              'the attached circuit has, under its new label, the value it has in the attached circuit when connector '
+              'oc_i is given the value of base gate tc_i (repeated base gates allowed) and an unconnected input the '
+              'value of its new label; RIGHT: every gate of the attached circuit (connectors written over base inputs '
+              'included, internal connectors allowed) has the value it has in the attached circuit, and every base '
+              'gate the value it has in base when the base input mapping[o] is given the value of gate o; the output '
+              'vector is the concatenation of the two constituents\' kept output vectors; the labels of the copied '
+              'gates are not labels of base; when a block name is given, the block exists, Block.into_circuit returns a '
+              'well formed circuit whose inputs/outputs are the renamed inputs/outputs of the attached circuit and in '
+              'which every gate of the attached circuit (its outputs in particular) has the value it has in the '
+              'attached circuit, as a function of the attached circuit\'s inputs (both directions); a LEFT connection is total: it returns normally whenever the arguments pass the documented checks and no copied gate label or block name clashes with one of base. The attached '
+              'circuit is unmodified because the model is purely functional; the implementation side of that '
+              'statement, and the tie model = code, come from the exact state correspondence after every call of '
+              'generated composition histories and from the brute-force oracle')
+LEVEL_NOTE = ('Coq kernel + vm_compute (examples); hand-written model Model/Connect.v (connect_circuit with the D1/D17/D18 '
+              'repairs: users index updated when a base input is overwritten, re-typed connectors listed in the block, '
+              'Block.into_circuit skips inputs already present), Model/Sem.v (Eval), Model/Traverse.v (top_sort), '
+              'Proofs/WFConnect*.v (C02) for well-formedness. Hypotheses: WF base, WF other (only these for the '
+              'semantic statements); inputs_nullary base additionally for WF of a right connection; inputs_nullary of '
+              'both for block extraction (through C02). The semantic theorems speak about normal returns: a label clash, '
+              'a missing connector, etc. give Err in the model and an exception in the code; totality is proved for the left '
+              'connection (C10_connect_left_total), not for the right one. In a '
+              'right connection with a repeated connector of the attached circuit only its LAST pair is connected (Python '
+              'dict semantics of `mapping`); the theorem is stated through build_mapping and is exact about that')
+TECHNIQUE = ('Coq proof: loop invariant over top_sort(other) with the processed prefix (structure theorem: which gate '
+             'is stored under which label), then one simulation lemma for the relational semantics (a circuit embedded '
+             'by a label map, INPUT gates read any label with the right value) instantiated for left/right/block; '
+             'model tied to /repo by full-state correspondence over composition histories and by the truth-table oracle')
 TRUSTED = []
 ASSUMPTIONS = []
 ALLOW = ['connect'] * 4 + ['connect_left', 'connect_right', 'connect_inputs', 'extend', 'extend', 'add_circuit',
